@@ -1,3 +1,4 @@
+import TinysetModel.Proofs.ProgramRefine
 import TinysetModel.Proofs.Fns
 import TinysetModel.Proofs.Plain
 import TinysetModel.Proofs.Consts
@@ -214,6 +215,25 @@ theorem helpers_are_the_source_u64 :
     (∀ x bits, 0 < bits → Gen.split_64 x bits = (x / bits, x % bits)) ∧
     (∀ k idx n, Gen.p_poverty_64 k idx n = RH.pov k idx n) :=
   ⟨log_2_64_eq, compute_array_bits_64_eq, split_64_eq, p_poverty_64_eq⟩
+
+/-! ### programs over several sets: contents and allocator calls in one statement -/
+
+/-- **SetU64, any number of sets, any program** of insert / remove / extend / collect / clone / with_capacity_of /
+hinted constructors / drop / `&a | &b` / `&a - &b` / `a | &b` / `a - &b` with `u64` arguments, every generator
+outcome: whenever the run returns, every set is well formed and holds exactly the members the same program over
+ideal mathematical sets gives it (`specRunP`), and the allocator calls made on the way, followed by the drop of
+every set, are all legal and leave nothing live -/
+theorem every_program_u64 {D : Type} (g : Rng D) (fuel n : Nat) (ops : List POp) (hr : ∀ op ∈ ops, op.InRange 64)
+    {s' : Slots} {d d' : D} {evs : List Ev}
+    (h : prun cfg64 true g fuel (List.replicate n .empty) ops d = .ok ((s', evs), d')) :
+    (∀ i, i < n → WF cfg64 (s'.get i) ∧ ∀ x, x ∈ elems cfg64 (s'.get i) ↔ specRunP n (fun _ => none') ops i x) ∧
+    runEv [] (evs ++ dropAll cfg64 s') = some [] :=
+  program_correct_and_balanced cfg64_ok true g fuel n ops hr h
+
+/-- the ideal program, spelled out on an example: two sets, a clone taken in between stays what it was -/
+example : specRunP 3 (fun _ => none') [.ins 0 5, .clone 1 0, .ins 0 7, .rem 1 5, .uniRef 2 0 1] 2 7 ∧
+    ¬ specRunP 3 (fun _ => none') [.ins 0 5, .clone 1 0, .ins 0 7, .rem 1 5, .uniRef 2 0 1] 1 7 := by
+  simp [specRunP, pspecStep, pspecCore, POp.idx, Ideal.upd, none']
 
 end C01
 
